@@ -96,6 +96,7 @@ type violationGroup struct {
 }
 
 func cmdCheck(prop, tier, only string, workers int) int {
+	defer cleanupReplay()
 	t0 := time.Now()
 	thorough := tier == "thorough"
 	seed := 0
@@ -311,6 +312,22 @@ func cmdCheck(prop, tier, only string, workers int) int {
 				evSamples = append(evSamples, map[string]any{"harness": hr.Name, "violation": best.Outcome.Msg, "kind": best.Outcome.Kind, "native": observed, "replay": vecPath})
 			} else {
 				broken("%s: SPURIOUS counterexample (%s %q) did not reproduce natively (observed %q); replay=%s", hr.Name, best.Outcome.Kind, best.Outcome.Msg, observed, vecPath)
+			}
+		}
+		// translator validation: one explored non-violating path per harness is replayed natively and
+		// must end in the same outcome (ok) - the engine and the compiled code agree on that input
+		if hr.OKSample != nil {
+			vecPath, err := writeReplay(prop, h.hf, hr.Name, hr.OKSample, thorough)
+			if err == nil {
+				repro, observed, err := nativeReplay(prop, hfs, vecPath)
+				replays++
+				if err != nil {
+					broken("%s: ok-sample replay failed to run: %v", hr.Name, err)
+				} else if !repro {
+					broken("%s: engine/native DISAGREE on an ok path (engine: ok, native: %q); replay=%s", hr.Name, observed, vecPath)
+				} else {
+					os.Remove(vecPath)
+				}
 			}
 		}
 		// known findings of this harness: demonstrate each still reproduces
